@@ -83,6 +83,14 @@ class MapErr(ArithmeticError):
     pass
 
 
+import queue as _real_queue  # noqa: E402
+
+
+class MapErrEmpty(MapErr, _real_queue.Empty):
+    """a user map function may raise anything - also `queue.Empty` (e.g. it polls a queue of its own); the workers use that
+    very exception type for their own polling"""
+
+
 def _base_node():
     from torchdata.nodes import BaseNode
     return BaseNode
@@ -160,8 +168,8 @@ MUL, ADD = 3, 1
 class MapFn:
     """deep-copyable map function with a switch point inside (user code runs between the worker's get and put)."""
 
-    def __init__(self, fail, slow=()):
-        self.fail, self.slow = list(fail), list(slow)
+    def __init__(self, fail, slow=(), empty=False):
+        self.fail, self.slow, self.empty = list(fail), list(slow), empty
 
     def __call__(self, x):
         s = vsched.CUR
@@ -171,7 +179,7 @@ class MapFn:
                 # user code slower than the consumer's poll timeout: the item stays in flight across queue.Empty polls
                 s.switch(lambda: False, SLOW_MAP)
         if x in self.fail:
-            raise MapErr(f"map_fn fails on {x}")
+            raise (MapErrEmpty if getattr(self, "empty", False) else MapErr)(f"map_fn fails on {x}")
         return x * MUL + ADD
 
 
@@ -455,7 +463,7 @@ def translate(events: List[tuple], gens: List[Gen], in_order: bool):
 
 def build_node(case, src):
     from torchdata.nodes import ParallelMapper
-    return ParallelMapper(src, MapFn(case["fail"], case.get("slow", ())), num_workers=case["N"], in_order=case["in_order"], method=case["method"],
+    return ParallelMapper(src, MapFn(case["fail"], case.get("slow", ()), case.get("fail_empty", False)), num_workers=case["N"], in_order=case["in_order"], method=case["method"],
                           max_concurrent=case["mc"], snapshot_frequency=case["f"])
 
 
@@ -768,7 +776,7 @@ def gen_case(rng, method="thread", allow_reset=True) -> Dict[str, Any]:
     sched = {"seed": rng.randrange(1 << 30), "adv": rng.random() < 0.4, "starve": (rng.randrange(N) if rng.random() < (0.45 if N >= 2 else 0.1) else None)}
     slow = sorted(rng.sample(items, rng.choice([1, 1, 2]))) if (len(items) >= 2 and rng.random() < 0.3) else []
     return {"N": N, "mc": mc, "f": f, "in_order": in_order, "method": method, "items": items, "term": term, "fail": fail,
-            "hist": hist, "sched": sched, "kill": None, "slow": slow}
+            "hist": hist, "sched": sched, "kill": None, "slow": slow, "fail_empty": bool(fail) and rng.random() < 0.3}
 
 
 def model_cfg(case, g: Gen) -> Dict[str, Any]:
